@@ -92,6 +92,19 @@ CHECKS["C04"] = dict(
     design_ref="DESIGN.md section 4 (C04)",
 )
 
+CHECKS["C11"] = dict(
+    category="proof",
+    text="JetOde.jet_lift / JetResidual.jet_lift: for generic polynomial right-hand sides and residuals (symbolic coefficients, differential order 1..3, explicit time dependence) and arbitrary curve coefficients, the outputs of the lifted function are exactly the 0..m-th total time derivatives along the curve, with the documented index bookkeeping; residual_from_ode is u^(k) - f for an uninterpreted f; residual_from_stack evaluates each part on its own coefficients; linearize() of TS0/TS1 constraints reproduces value and (full / per-dimension / trace-averaged) Jacobian (cached_linearisation clauses of the step contracts).",
+    note="degree/dimension/lift enumerated per instance (lift <= 2 quick, <= 5 thorough); lift_by admissibility (ValueError/TypeError) is trace-time Python: checked by exhaustive enumeration over a stated finite domain, labelled bounded and not counted as proved",
+    design_ref="DESIGN.md section 4 (C11)",
+)
+CHECKS["C12"] = dict(
+    category="proof",
+    text="logpdf of the three normals is the Gaussian log-density through a triangular factor of the covariance; loss_lml_terminal_values is the log-density of the datum under N(E_i m, E_i P E_i^T + diag(std^2)); loss_lml_timeseries is the sum (or mean) over time of log p(y_k | y_{k+1..N}) obtained by backward Kalman filtering along the backward Markov factorisation with per-time (and per-dimension) noise -- stated stage-wise (prediction, innovation, gain, update), inverse-free with ghost gains.",
+    note="N, n, d, tcoeff_index enumerated; 'sum of conditional log-densities = joint log-density under the smoothing posterior plus noise' is the chain rule (lemma about the specification, assumed); |w|^2 = (u-m)^T cov^-1 (u-m) and 2 sum log|C_ii| = log det cov for a triangular factor C are stated lemmas; singular innovation covariances (lstsq path) are not covered: the contract is verified with solve_triu",
+    design_ref="DESIGN.md section 4 (C12)",
+)
+
 NOT_APPLICABLE = {
     "C01": "global accuracy / convergence order against the true ODE solution is not a postcondition of one call nor a data-structure invariant; no contract over the code implies it (DESIGN section 4, C01)",
 }
